@@ -1247,8 +1247,11 @@ fn process_alternatives<'data, P: Platform>(
                 // A hidden reference that was resolved before the alternatives were selected has only
                 // flagged the first definition of the name. The downgrade applies to the name, so it
                 // must reach whichever definition was selected.
+                // Linker-defined symbols are local because nothing else defined them, which says
+                // nothing about a user definition that overrides them, so they don't take part.
                 let name_flags = std::iter::once(first)
                     .chain(alternatives.iter().copied())
+                    .filter(|id| symbol_db.file_id_for_symbol(*id) != PRELUDE_FILE_ID)
                     .map(|id| per_symbol_flags.get_atomic(id).get())
                     .filter(|f| f.is_downgraded_to_local() && !f.contains(ValueFlags::DYNAMIC))
                     .fold(ValueFlags::empty(), |acc, f| {
